@@ -524,45 +524,46 @@ Definition exposed (st : state) (wm : list wentry) (inp : bool) : list (nat * na
                                          end)
                               (panel_chans n (if inp then PIn else POut))) (kids st).
 
-(* for old_channel in old: if old_channel.connected: new[old_channel.label].copy_connections(old_channel);
-   old_channel.disconnect_all() -- [None] = an exception left the try block *)
-Fixpoint rebuild_go (pan todo : list (nat * nat)) (s : cstore) (k : nat) : option (cstore * nat) :=
+(* `for key, old_channel in old.items(): if old_channel.connected: new_channel = new[key];
+   if new_channel is old_channel: continue; new_channel.copy_connections(old_channel);
+   old_channel.disconnect_all()` (tree at a33e34e).  Both panels are built from the same children and the
+   same map, so the channel found under the key is the old channel itself and nothing is ever moved; the
+   other branches are kept so that a change of the lookup shows. *)
+Fixpoint rebuild_go (pan todo : list (nat * nat)) (s : cstore) (k : nat) : cstore * nat * res :=
   match todo with
-  | [] => Some (s, k)
-  | (_, oc) :: rest =>
+  | [] => (s, k, Ok)
+  | (key, oc) :: rest =>
       match s oc with
       | [] => rebuild_go pan rest s k
       | _ =>
-          match find (fun e => Nat.eqb (fst e) (clabel oc)) pan with
-          | None => None                                   (* AttributeError *)
+          match find (fun e => Nat.eqb (fst e) key) pan with
+          | None => (s, k, Err AttrErr)                      (* new[key]: AttributeError *)
           | Some (_, nc) =>
-              match copy_conns s k nc oc with
-              | (s1, k1, Ok) => rebuild_go pan rest (fst (disconnect_all s1 oc)) k1
-              | (_, _, Err _) => None
-              end
+              if Nat.eqb nc oc then rebuild_go pan rest s k  (* the same child channel exposed again *)
+              else match copy_conns s k nc oc with
+                   | (s1, k1, Ok) => rebuild_go pan rest (fst (disconnect_all s1 oc)) k1
+                   | bad => bad
+                   end
           end
       end
   end.
 
-Definition rebuild (st : state) (wm : list wentry) : option state :=
+Definition rebuild (st : state) (wm : list wentry) : state * res :=
   let pin := exposed st wm true in
   let pout := exposed st wm false in
   match rebuild_go pin pin (cn st) (fc st) with
-  | None => None
-  | Some (s1, k1) =>
-      match rebuild_go pout pout s1 k1 with
-      | None => None
-      | Some (s2, k2) => Some (with_cn st s2 k2)
-      end
+  | (s1, k1, Ok) =>
+      let '(s2, k2, r) := rebuild_go pout pout s1 k1 in (with_cn st s2 k2, r)
+  | (s1, k1, Err e) => (with_cn st s1 k1, Err e)
   end.
 
-(* Workflow.replace_child: a failing rebuild (whose own revert raises) is answered by replacing
-   back, whose rebuild fails again, ...: RecursionError, at a depth-dependent state *)
+(* Workflow.replace_child: Composite.replace_child, then the rebuild; should the rebuild raise, the
+   composite-level replacement is made in the other direction and the rebuild's exception re-raised *)
 Definition replace_wf (st : state) (wm : list wentry) (comp old new : nat) : state * rres :=
   match replace_core st comp old new with
   | (st1, ROk) => match rebuild st1 wm with
-                  | Some st2 => (st2, ROk)
-                  | None => (st1, RErr RecErr PhRebuild)
+                  | (st2, Ok) => (st2, ROk)
+                  | (st2, Err e) => (fst (replace_core st2 comp new old), RErr e PhRebuild)
                   end
   | bad => bad
   end.
